@@ -8,14 +8,16 @@ CONFIG = dict(
                 "timeouts) are played against the real fetcher; a timeline monitor checks every logged request and every "
                 "announcement's deadline."),
     level_note=NOTE_COMMON + (" The fetcher uses the wall clock and its own goroutines. Clauses on logged order (S1, S2) are timing "
-                              "independent; the 'stops shortly' and deadline clauses use the bound 4*ArriveTimeout + 1 s, a canary "
-                              "goroutine that marks a batch inconclusive when the scheduler delayed it by more than 100 ms, and are "
-                              "reported only when the same history re-fails three more times in a row. Operations are issued one at "
+                              "independent; the 'stops shortly' and deadline clauses use the bound 4*ArriveTimeout + 1 s and are reported "
+                              "only when the same history, re-run alone, re-fails three times in a row; a canary goroutine measures "
+                              "scheduler delay and re-runs during which it overslept by more than 100 ms are not counted either way "
+                              "(suspects that cannot be confirmed are counted inconclusive). Operations are issued one at "
                               "a time (marker round trips), because the fetcher's random select leaves the processing order of a "
                               "queued receipt and a queued announcement undefined. HashLimit is large: evictions are outside the "
                               "property. With ForgetTimeout = 5x the deadline clause is waived (the bound exceeds the forget timeout)."),
-    rule=("One rapid case = 8 independent histories run concurrently, each on its own fetcher; evaluations count histories. A history "
-          "is 2-15 operations (one quarter from the template 'everything is announced while suspended, then the suspension ends'). "
+    rule=("One rapid case = 10 independent histories run concurrently, each on its own fetcher; evaluations count histories. A history "
+          "is 2-15 operations drawn from three templates: everything is announced while suspended and idle, then the suspension ends (1/5); two "
+          "item groups announced a little apart, the first group arrives, another peer announces the pending group later (2/5); free mix (2/5). "
           "Oracle: S1 request (p,x) preceded by an announcement of x by p; S2 preceded by an OnlyInterested call returning x; T1 no "
           "request to p for x later than the bound after x was reported received unless p announced it anew; T3 no request for x "
           "that has not been interesting during the last bound; T4 every announcement of an item that stays interesting and "
